@@ -7,12 +7,15 @@ def run():
     t0 = time.time(); v = vlib.Verdict(PID); acc = Acc(); th = vlib.TIER == "thorough"
     tok_model(acc, ["E"], 5 if th else 4, invariants=["FixpointDom"])
     tok_model(acc, ["A"], 5 if th else 4, invariants=["FixpointDom"])
+    tok_model(acc, ["F"], 5 if th else 4)       # capitalised URL scheme (fix in normalizeToken)
+    tok_model(acc, ["G"], 6 if th else 5)       # hyphen-ended notice lines (fix in Normalize's renderer)
     tok_model(acc, ["E"], 5, invariants=["Fixpoint"], expect_violation="Fixpoint")   # the open finding C11-token-ends-in-hyphen at model level ("1-.\na")
-    tok_replay(v, acc, ["E", "A"], 5 if th else 4)
+    tok_replay(v, acc, ["E", "A", "F"], 5 if th else 4)
+    tok_replay(v, acc, ["G"], 6 if th else 5)
     recs, lines = trace_leg(v, acc, "c11", [PID])
     ps = [r for r in lines if r.get("ev") == "pair"]
     acc.nontrivial += len({r["label"] for r in ps}); acc.extra["pairs"] = len(ps)
     rc = v.finish()
-    vlib.write_evidence(PID, acc.coverage("M/G: every input <= MaxLen over alphabets E (upper-case markers, colon, leading blank lines) and A; T: corpus documents (in context / edited), scenario files: tokens of Normalize(in) vs tokens of in (words and lines), and Match(Normalize(in)) vs Match(in) without Copyright entries", exhaustive=True),
+    vlib.write_evidence(PID, acc.coverage("M/G: every input <= MaxLen over alphabets E (upper-case markers, colon, leading blank lines), A, F (capitalised URL scheme) and G (notice lines with and without a trailing hyphen); T: corpus documents (in context / edited, with capitalised URL schemes, with hyphen-ended notice lines inserted), scenario files: tokens of Normalize(in) vs tokens of in (words and lines), and Match(Normalize(in)) vs Match(in) without Copyright entries", exhaustive=True),
         ["Align is evaluated on Match's own tokenisation of the normalized text (Normalize keeps first-letter case and original spellings)"], time.time() - t0, len(v.violations))
     return rc
